@@ -38,8 +38,12 @@ Proof. reflexivity. Qed.
 Example tl_ops :
   view (RawGet MAI (tableInsert3 MAI tl 2 (VNum 9))) 4 = [VNum 3; VNum 9; VNum 1; VNum 2]
   /\ view (RawGet MAI (tableInsert2 tl (VNum 9))) 4 = [VNum 3; VNum 1; VNum 2; VNum 9]
-  /\ fst (tableRemove1 tl) = VNum 2
-  /\ fst (tableRemove2 tl 1) = VNum 3
+  /\ fst (tableRemove1 tl) = Some (VNum 2)
+  /\ fst (tableRemove2 tl 1) = Some (VNum 3)
+  /\ tableRemove2 tl 4 = (None, tl)
+  /\ tableConcat MAI tl [44] (Some 2) (Some 5) = None
+  /\ tableMaxN tl = KInt 3
+  /\ tableMaxN (RawSet MAI tl (KDy 7 (-1)) (VNum 1)) = KDy 7 (-1)
   /\ tableConcat MAI tl [44] None None = Some [51; 44; 49; 44; 50]
   /\ tableConcat MAI tl [] (Some 4) (Some 3) = Some []
   /\ baseUnpack MAI tl (Some 2) None = [VNum 1; VNum 2]
